@@ -13,6 +13,9 @@ length, element sub-patterns, one starred capture) and mapping patterns (isinsta
   dict(a=x, b=y) / dict()  ->  {'a': x, 'b': y} / {}   (when the module never rebinds `dict`)
   _NAME = <literal> at module level, bound once  ->  uses of _NAME inside functions / classes read the literal
   x: T = v  ->  x = v   (annotated assignments outside class bodies; a bare `x: T` becomes `pass`; class-level ones declare record fields)
+  try: <return / x => D[K]  /  except KeyError: <H>   ->   if K in D: <return / x =>  D[K] / else: <H>
+      (one statement in the body, D an attribute or a local name - never `self` itself -, K free of calls other than id / str / repr /
+      persistent_id / tuple; no else / finally, the exception not bound: the look-before-you-leap spelling of the same dict lookup)
 
 A match statement that uses anything else (positional class sub-patterns, which depend on __match_args__) is left as it
 is - the engines then give no verdict for the function that contains it.
@@ -277,6 +280,47 @@ class _DictCalls(ast.NodeTransformer):
         return node
 
 
+class _TryKeyError(ast.NodeTransformer):
+    """try: return D[K] / except KeyError: H  ->  if K in D: return D[K] / else: H   (see the module docstring)"""
+    PURE = {'id', 'str', 'repr', 'tuple', 'persistent_id', 'utils.persistent_id', 'int', 'len'}
+
+    def _pure(self, e):
+        for n in ast.walk(e):
+            if isinstance(n, ast.Call) and not (ast.unparse(n.func) in self.PURE and not n.keywords):
+                return False
+            if isinstance(n, (ast.NamedExpr, ast.Await, ast.Yield, ast.YieldFrom, ast.Lambda, ast.ListComp, ast.SetComp, ast.DictComp, ast.GeneratorExp)):
+                return False
+        return True
+
+    def visit_Try(self, node):
+        self.generic_visit(node)
+        if node.orelse or node.finalbody or len(node.handlers) != 1 or len(node.body) != 1:
+            return node
+        h = node.handlers[0]
+        if h.name is not None or h.type is None or ast.unparse(h.type) != 'KeyError':
+            return node
+        st = node.body[0]
+        if isinstance(st, ast.Return):
+            sub = st.value
+        elif isinstance(st, ast.Assign) and len(st.targets) == 1 and isinstance(st.targets[0], ast.Name):
+            sub = st.value
+        else:
+            return node
+        if not (isinstance(sub, ast.Subscript) and isinstance(sub.ctx, ast.Load)) or isinstance(sub.slice, ast.Slice):
+            return node
+        d, k = sub.value, sub.slice
+        base = d
+        while isinstance(base, ast.Attribute):
+            base = base.value
+        if not isinstance(base, ast.Name) or (isinstance(d, ast.Name) and d.id in ('self', 'cls')) or not self._pure(k) or not self._pure(d):
+            return node
+        if any(isinstance(x, ast.Raise) and x.exc is None for hs in h.body for x in ast.walk(hs)):
+            return node       # a bare `raise` needs the exception
+        test = ast.Compare(left=k, ops=[ast.In()], comparators=[d])
+        orelse = [] if all(isinstance(x, ast.Pass) for x in h.body) else h.body
+        return ast.copy_location(ast.If(test=test, body=[st], orelse=orelse), node)
+
+
 def _rebinds(tree, name):
     for n in ast.walk(tree):
         if isinstance(n, ast.Name) and n.id == name and isinstance(n.ctx, (ast.Store, ast.Del)):
@@ -293,6 +337,9 @@ def _rebinds(tree, name):
 def desugar(tree):
     if any(isinstance(n, ast.Call) and isinstance(n.func, ast.Name) and n.func.id == 'dict' and not n.args for n in ast.walk(tree)) and not _rebinds(tree, 'dict'):
         tree = _DictCalls().visit(tree)
+        ast.fix_missing_locations(tree)
+    if any(isinstance(n, ast.Try) and len(n.handlers) == 1 and n.handlers[0].type is not None and ast.unparse(n.handlers[0].type) == 'KeyError' for n in ast.walk(tree)):
+        tree = _TryKeyError().visit(tree)
         ast.fix_missing_locations(tree)
     consts = _private_literal_constants(tree)
     if consts:
